@@ -10,6 +10,7 @@ import Continuum.Lemmas.UowLive
 import Continuum.Spec.Links
 import Continuum.Props.C05Deep
 import Continuum.RevertFull
+import Continuum.Props.C05Links
 import Continuum.Activity
 import Continuum.Revert
 import Continuum.Trigger
@@ -643,7 +644,11 @@ def handle (st : DState) (toks : List String) : DState × Option String :=
         let linkEq := sameLinkSet res.2.1 st.c05Links
         let showLive := semi (res.1.map (fun p => s!"{p.1.1} {showKey p.1.2} {showVals p.2}"))
         let showLinks := semi (res.2.1.map (fun l => s!"{l.1} {showKey l.2}"))
-        (st, some s!"{showBool liveEq} {showBool linkEq} | {showLive} | {showLinks}")
+        -- oracle on the IMPLEMENTATION's links: second-level links of a two-level path are back (C05.SecondLevelLinksHold)
+        let second := paths.all (fun p => match p with
+          | [r1, r2] => decide (C05.SecondLevelLinksHold st.c05Links st.c05V st.arows regf v r1 r2)
+          | _ => true)
+        (st, some s!"{showBool liveEq} {showBool linkEq} {showBool second} | {showLive} | {showLinks}")
       | none => (st, bad)
     | _, _, _, _, _ => (st, bad)
   | ["q05", tid, pk, tx, rels] =>
